@@ -4,6 +4,8 @@ import ast
 import collections
 import functools
 import importlib
+import importlib.machinery
+import importlib.util
 import sys
 import threading
 from pathlib import Path
@@ -178,14 +180,44 @@ class _TraceResult(NamedTuple):
 SYS_PATH_LOCK = threading.Lock()
 
 
+def _find_spec_without_importing(module: str) -> importlib.machinery.ModuleSpec | None:
+    """Find a module the way the import system does, without running any of the parent packages.
+
+    importlib.util.find_spec("a.b") imports a, which runs the code of the project that is being
+    formatted, e.g. a sys.exit() in an __init__.py or __main__.py, and leaves a in sys.modules.
+    """
+    search_path = None  # sys.path
+    module_spec = None
+    names = module.split(".")
+    for i in range(len(names)):
+        name = ".".join(names[: i + 1])
+        finders = (
+            importlib.machinery.BuiltinImporter,
+            importlib.machinery.FrozenImporter,
+            importlib.machinery.PathFinder,
+        )
+        for finder in finders:
+            module_spec = finder.find_spec(name, search_path)
+            if module_spec is not None:
+                break
+        else:
+            return None
+
+        search_path = module_spec.submodule_search_locations
+        if search_path is None and i + 1 < len(names):
+            return None  # Not a package, so it has no submodules that can be found as files
+
+    return module_spec
+
+
 def _trace_module_source_file(module: str) -> str | None:
     with SYS_PATH_LOCK:
         try:
             sys.path.append(str(Path.cwd()))
 
             try:
-                module_spec = importlib.util.find_spec(module)
-            except (ImportError, ValueError):  # ValueError: e.g. __main__.__spec__ is None
+                module_spec = _find_spec_without_importing(module)
+            except (ImportError, ValueError):  # ValueError: e.g. an empty module name
                 return None
 
             if module_spec is None:
